@@ -373,7 +373,7 @@ pub fn def(pairs: bool) -> HistProp {
         level: "fault_enumeration",
         scenarios,
         oracles: if pairs { || vec![Box::new(Faults { pairs: true })] } else { || vec![Box::new(Faults { pairs: false })] },
-        budget_s: |t| if t == "quick" { 45 } else { 900 },
+        budget_s: |t| if t == "quick" { 50 } else { 900 },
         max_states: 500_000,
         assumptions: &[
             "a failed read scribbles the caller's buffer with 0xA5; a failed write is not applied",
